@@ -654,8 +654,8 @@ def run(ctx):
             st0 = g.states[sid]
             assign = tuple(st0["assign"])
             maximal = tie_paths(g, sid)
-            if quick and len(maximal) > 5:
-                maximal = rng.sample(maximal, 5)
+            if quick and len(maximal) > 3:
+                maximal = rng.sample(maximal, 3)
             elif nsites == 6 and len(maximal) > 12:
                 maximal = rng.sample(maximal, 12)
             for t in tmpls:
